@@ -306,7 +306,7 @@ pub fn compare_case(ci: usize, case: &Value, out: &Mutex<Vec<Finding>>) {
 
 pub fn run(rep: &'static Report) {
     let thorough = is_thorough();
-    let k = if thorough { 5 } else { 3 };
+    let k = if thorough { 5 } else { 4 };
     let cases = generate("gen_c15.py", k, &[]);
     let findings: Mutex<Vec<Finding>> = Mutex::new(Vec::new());
     let rejected = cases.iter().filter(|c| c.get("cpython_rejects").is_some()).count();
